@@ -143,6 +143,6 @@ def main(tier, seed, workers=None):
     run = Run(PROP, "exploration", tier, seed, RULE)
     run.assumptions = ["CPython 3.12 + msgpack from /venv", "values outside the alphabets are not covered",
                        "identity is judged on mc.obs observations (class, flavour, bit pattern, utcoffset)"]
-    explore(run, streamspace.cases(tier, seed), run_case, workers)
+    explore(run, streamspace.cases(tier, seed), run_case, workers, reversed_pass=(tier == "thorough"))
     run.extra["channels"] = channels(tier)
     return run.finish(lambda case: [v[0] for v in run_case(case)["viol"]])
